@@ -87,6 +87,10 @@ def corpus():
         'va 4 1,3,1,0,0,1 -', 'agg 2', 'agg 4', 'vs 5 2', 'vs 5 1', 'vs 5 2', 'rc 2 2,1', 'agg 2', 'vs 1 1', 'agg 2', 'agg 4',
         'vs 6 0', 'agg 2', 'agg 4', 'c 7 -', 'agg 7', 'va 7 1 -', 'act'], tags=('hand-made',))
 
+    # wrong entry point for the causal type: verify_all_causes on a singleton (Err), verify_single_cause on wrappers (panics:
+    # the wrapper has no causal function) — error paths that must leave every activation flag alone
+    yield Case('ctx -', ['s 0 p', 'va 0 1,1 -', 'act', 'vs 0 1', 'va 0 1 -', 'act', 'c 1 0', 'vs 1 1', 'act',
+                         's 2 p', 'g 3 0,2 0-1 0', 'vs 4 1', 'act'], tags=('hand-made', 'wrong-entry-point'))
 
 def generate(rng, tier):
     n = 220 if tier == 'quick' else 10000
